@@ -82,7 +82,8 @@ class EuropeanForwardStartOption(BaseDerivative):
         return ", ".join(params)
 
     def _start_index(self) -> int:
-        return floor(self.start / self.ul().dt)
+        # (round: start / dt may land just below an integer, e.g. (43 / 250) / (1 / 250))
+        return floor(round(self.start / self.ul().dt, 9))
 
     def payoff_fn(self) -> Tensor:
         return european_forward_start_payoff(
